@@ -42,6 +42,25 @@ def enumerate_faults(world, opts, facts):
             for i, r in enumerate(t["rows"]):
                 # unknown asset / exchange / holder
                 out.append(_cellfault("unknown_name", "unknown_asset", name, tt, i, "asset", "NOPE"))
+                # near misses of configured names: another letter case, a trailing blank, a look-alike letter - not what the config lists
+                def near(value, pool):
+                    outv = []
+                    sw = value.swapcase()
+                    if sw != value and sw not in pool:
+                        outv.append(("case", sw))
+                    if value + " " not in pool:
+                        outv.append(("padded", value + " "))
+                    look = value.replace("a", "\u0430", 1) if "a" in value else (value.replace("e", "\u0435", 1) if "e" in value else None)
+                    if look and look not in pool:
+                        outv.append(("lookalike", look))
+                    return outv
+
+                for fld, pool, cat in (("exchange", world["exchanges"], "exchange"), ("from_exchange", world["exchanges"], "exchange"), ("to_exchange", world["exchanges"], "exchange"),
+                                       ("holder", world["holders"], "holder"), ("from_holder", world["holders"], "holder"), ("to_holder", world["holders"], "holder"),
+                                       ("asset", world["assets"], "asset")):
+                    if fld in r or fld == "asset":
+                        for tag, v in near(r.get(fld, name) if fld != "asset" else name, pool):
+                            out.append(_cellfault("unknown_name", "unknown_%s_%s" % (cat, tag), name, tt, i, fld, v))
                 # ... and names that are configured, but in another category (a holder cell naming an exchange, an exchange cell naming a
                 # holder or an asset): still unknown where they stand
                 for f in ("exchange", "from_exchange", "to_exchange"):
